@@ -1470,6 +1470,10 @@ class GeoboxTiles:
         if target_crs is not None and poly.crs != target_crs:
             poly = poly.to_crs(target_crs, check_and_fix=True)
 
+        if poly.is_empty:
+            # nothing overlaps an empty query (its bounding box is NaN)
+            return
+
         bbox = poly.boundingbox
         if bbox.crs is None:
             # geometry without CRS: world coordinates of this (CRS-less) GeoBox,
